@@ -14,12 +14,12 @@ import (
 func init() {
 	register(&Property{
 		ID:    "C18",
-		Rules: []string{"C18-R1", "C18-R2", "C18-R3", "C18-R4", "C18-R5", "C08-R8"},
+		Rules: []string{"C18-R1", "C18-R2", "C18-R3", "C18-R4", "C18-R5", "C18-R6", "C08-R8"},
 		Explain: "Decides the protocol of the channel parser as a typestate over its three channels: C18-R1 Nodes, Errors and Done are unbuffered (every send is a rendezvous, so the order a consumer observes is the producer's program order under every schedule); " +
 			"C18-R2 package parser has no go statement and no select, and sends on the three channels occur only in the exported methods of Parser; " +
 			"C18-R3 the send language of ParseStream and ParseFile (with the callback parser inlined) is N* E? D on every terminating path: no record after an error, at most one error, exactly one Done, last; " +
 			"C18-R4 a non-nil result of the callback parser (or of opening the file) is always sent on Errors; " +
-			"C18-R5 the Parser's methods parse with the receiver's own configuration, so both parsers classify lines alike; C08-R8 (shared) on the path where the open fails nothing is called on the nil file (the producer cannot die before sending the error).",
+			"C18-R6 the adapter callback sends every record it is given before letting the parse continue; C18-R5 the Parser's methods parse with the receiver's own configuration, so both parsers classify lines alike; C08-R8 (shared) on the path where the open fails nothing is called on the nil file (the producer cannot die before sending the error).",
 		NotDecided:  "liveness of a consumer that stops listening (the producer then blocks by design); equality of the delivered records with the callback parser's (they are the same objects)",
 		Assumptions: []string{"an unbuffered channel send completes only when a receiver takes the value"},
 		Run: func(c *core.Ctx) {
@@ -27,6 +27,7 @@ func init() {
 			ruleParserConcurrency(c, "C18-R2")
 			ruleSendLanguage(c, "C18-R3")
 			ruleParserOwnConfig(c, "C18-R5")
+			ruleAdapterForwards(c, "C18-R6")
 			ruleNilFile(c, "C08-R8")
 			_, sites := errorChain(c.P, func(cal *ssa.Function, ci ssa.CallInstruction) (bool, string) {
 				if cal != nil {
@@ -293,4 +294,63 @@ func derefType(t types.Type) types.Type {
 		return p.Elem()
 	}
 	return t
+}
+
+// ruleAdapterForwards is C18-R6: the callback through which the channel parser
+// listens to the callback parser forwards every record it is given — with
+// (record, nil) every path that lets the parse go on has sent that record on a
+// channel first. A record filtered out here is one the callback parser reports
+// and the channel consumer never sees.
+func ruleAdapterForwards(c *core.Ctx, rule string) {
+	pt := c.P.LookupType(parserPkg, "Parser")
+	if !requireAnchor(c, rule, "parser.Parser", pt != nil) {
+		return
+	}
+	n := 0
+	for _, cb := range parseCallbacks(c.P) {
+		pkgPath := core.FnPkgPath(cb)
+		if pkgPath == "" && cb.Object() != nil && cb.Object().Pkg() != nil {
+			pkgPath = cb.Object().Pkg().Path() // a method value: the wrapper belongs to the method's package
+		}
+		if pkgPath != parserPkg || len(cb.Params) != 2 {
+			continue
+		}
+		n++
+		fname := core.FuncName(cb)
+		x := newExec(c)
+		node := absint.Sym{Name: "node"}
+		x.Hooks.Send = func(x *absint.Exec, s *absint.State, in *ssa.Send, ch, v absint.Value) {
+			if v.Key() == node.Key() {
+				s.SetData("sent", "1")
+			}
+		}
+		st := x.NewState(cb, []absint.Value{node, absint.Const{Nil: true}}, nil)
+		x.AssumeNil(st, node, false)
+		terms := x.Run(st)
+		if !account(c, x, rule, cb) {
+			continue
+		}
+		var bad []string
+		for _, tm := range terms {
+			if tm.Kind != "return" || len(tm.Ret) != 2 {
+				continue
+			}
+			if stop, known := boolOf(tm.Ret[0]); known && stop {
+				continue
+			}
+			if tm.State.Data["sent"] != "1" {
+				bad = append(bad, fmt.Sprintf("%s: given a record and no error the adapter lets the parse go on without having sent the record (%s): the channel consumer sees fewer records than the callback parser reports", c.P.Pos(tm.Pos), x.Valuation(tm.State)))
+			}
+		}
+		bad = uniq(bad)
+		if len(bad) == 0 {
+			c.Discharge(rule, fname, "forwards", c.P.Pos(cb.Pos()), "every record handed to the adapter is sent on before the parse continues")
+		}
+		for _, m := range bad {
+			c.Violate(rule, fname, "forwards", c.P.Pos(cb.Pos()), m, nil)
+		}
+	}
+	if n == 0 {
+		c.Undecide(rule, "parser", "universe", "-", "no ParseCallback is created in package parser: the channel parser's adapter was not found", nil)
+	}
 }
